@@ -96,6 +96,8 @@ func main() {
 		c14OneMode(args)
 	case "reccheck":
 		recCheckMode(args)
+	case "kwh":
+		kwhMode(args)
 	case "c13":
 		c13Mode(args)
 	case "c17":
